@@ -580,3 +580,111 @@ def compare_model(ap, obs):
     if ib != bk:
         dis.append({"what": "booked (task, resource, slot) sets differ", "only_model": sorted(bk - ib)[:6], "only_impl": sorted(ib - bk)[:6]})
     return dis, None
+
+
+# ----------------------------------------------------------------------------- sub-slot dialect (Model/SubSlot.v)
+def encode_sd(ap, obs_end):
+    """flat-integer encoding of a forward project whose effort tasks allocate one resource, without limits,
+    for ocaml/scheddriver.ml ('sd ...').  Efforts, efficiencies and gaps are arbitrary (exact rationals).
+    Raises NotCore outside that dialect."""
+    from fractions import Fraction
+    G = ap.get("G", 3600)
+    S = ap["start"]
+    if ap.get("alap") or S % G:
+        raise NotCore("backward project / unaligned start")
+    if not aligned(ap):
+        raise NotCore("calendar not aligned to the resolution")
+    upper = (obs_end - S) // G
+    if upper > 4000:
+        raise NotCore("horizon too long for the unary-number model run")
+    ridx = res_index(ap)
+    if any(n.get("dailymax") is not None or n.get("weeklymax") is not None for n in ridx.values()):
+        raise NotCore("limits")
+    rleaf = [(p, n) for p, n in ridx.items() if "kids" not in n]
+    rnum = {n["id"]: i for i, (p, n) in enumerate(rleaf)}
+    out = [upper, G, len(rleaf)]
+    for p, n in rleaf:
+        work = [1 if working(ap, n, S + s * G) else 0 for s in range(upper + 1)]
+        e = Fraction(str(n.get("eff") or "1.0"))
+        out += [len(work)] + work + [e.numerator, e.denominator]
+    tidx = task_index(ap)
+    order = list(tidx)
+    tnum = {p: i for i, p in enumerate(order)}
+    edges = all_edges(ap)
+    out.append(len(order))
+    for p in order:
+        n = tidx[p]
+        leaf = "kids" not in n
+        if n.get("dailymax") is not None or n.get("weeklymax") is not None:
+            raise NotCore("limits")
+        if n.get("sched") or n.get("end") is not None:
+            raise NotCore("task-level mode / end")
+        lvs = [tnum[x] for x in leaves_under(n, p)]
+        prio = 500
+        for k in range(len(p), 0, -1):
+            if tidx[p[:k]].get("prio") is not None:
+                prio = tidx[p[:k]]["prio"]
+                break
+        mile, eff_s, r = 1, 0, 0
+        if leaf and n.get("effort") is not None:
+            if n.get("alt") or len(n["alloc"]) != 1 or n["alloc"][0] not in rnum:
+                raise NotCore("team / alternative / group allocation")
+            mile, eff_s, r = 0, n["effort"] * 60, rnum[n["alloc"][0]]
+        deps = []
+        for (q, gap, onstart, gaplen) in edges[p]:
+            if gaplen:
+                raise NotCore("gaplength")
+            deps.append((tnum[q], 1 if onstart else 0, gap))
+        pin = -1
+        if n.get("start") is not None and leaf:
+            if n["start"] < S:
+                raise NotCore("pinned start before the project start")
+            if (n["start"] - S) % G and not mile:
+                raise NotCore("pinned start of an effort task inside a slot")
+            pin = n["start"] - S
+        lb = 0
+        for k in range(len(p) - 1, 0, -1):
+            s = tidx[p[:k]].get("start")
+            if s is not None:
+                lb = max(0, s - S)
+                break
+        out += [1 if leaf else 0, len(lvs)] + lvs + [prio, mile, eff_s, 1, r, len(deps)] + [x for d in deps for x in d] + [pin, lb]
+    return "sd " + " ".join(str(x) for x in out), order, [fid(p) for p, _ in rleaf]
+
+
+def compare_sd(ap, obs):
+    """disagreements between the extracted sub-slot model and the implementation (dates to the second, ledger
+    seconds to the millisecond); (None, why) outside the dialect"""
+    sc = obs["scenarios"][0]
+    try:
+        line, order, rnames = encode_sd(ap, obs["end"])
+    except NotCore as ex:
+        return None, str(ex)
+    out = common.run_driver("scheddriver", [line])[0]
+    if out.startswith("ERROR") or "|" not in out:
+        return [{"what": "model driver failed", "detail": out[:300]}], None
+    left, right = out.split("|")
+    S = ap["start"]
+    dis = []
+    for p, tok in zip(order, left.split()):
+        st = sc["tasks"].get(fid(p))
+        m = (False, None, None) if tok == "-" else (True, S + int(tok.split(":")[0]), S + int(tok.split(":")[1]))
+        i = (st["sched"], st["start"] if st["sched"] else None, st["end"] if st["sched"] else None)
+        if m != i:
+            dis.append({"what": "task dates differ (sub-slot model)", "task": fid(p), "model": m, "impl": i})
+    ml, il = {}, {}
+    for tok in right.strip().split(";"):
+        if tok:
+            t, r, s, x = tok.split(",")
+            if float(x) > 1e-3:
+                k = (fid(order[int(t)]), rnames[int(r)], int(s))
+                ml[k] = ml.get(k, 0.0) + float(x)
+    for r, slots in sc["ledger"].items():
+        for s, ents in slots.items():
+            for t, x in ents:
+                if x > 1e-3:
+                    il[(t, r, int(s))] = il.get((t, r, int(s)), 0.0) + x
+    for k in sorted(set(ml) | set(il)):
+        if abs(ml.get(k, 0.0) - il.get(k, 0.0)) > 1e-3:
+            dis.append({"what": "ledger seconds differ (sub-slot model)", "task_resource_slot": list(k), "model": ml.get(k), "impl": il.get(k)})
+    return dis, None
